@@ -319,11 +319,14 @@ def functional_shard(T):
         "trace_nearest_tol": lambda o, s: inferno.trace_nearest(o, s, decay=decay, amplitude=amp, target=0.75, tolerance=0.25),
         "trace_cumulative_tol": lambda o, s: inferno.trace_cumulative(o, s, decay=decay, amplitude=amp, target=0.75, tolerance=0.25),
     }
-    for name, f in fns.items():
-        for hist in itertools.product((0.0, 1.0), repeat=T):
+    for name, f, odt in [(n, f_, torch.float32) for n, f_ in fns.items()] + \
+                        [(n, fns[n], d) for n in ("trace_nearest", "trace_cumulative", "exp_trace_nearest", "exp_trace_cumulative",
+                                                  "exprate_trace_nearest", "exprate_trace_cumulative") for d in (torch.bool, torch.int64)]:
+        # spike observations may be boolean or integer tensors: same traces (amplitude 1.5 does not survive a cast to either)
+        for hist in itertools.product((0.0, 1.0), repeat=T if odt == torch.float32 else min(T, 5)):
             state = None
             for i, x in enumerate(hist):
-                state = f(torch.tensor([x, 1.0 - x]), state)
+                state = f(torch.tensor([x, 1.0 - x]).to(odt), state)
                 tally.add("steps")
                 for e in range(2):
                     h = [v if e == 0 else 1.0 - v for v in hist[: i + 1]]
@@ -338,9 +341,10 @@ def functional_shard(T):
                     else:
                         exp = sum(amp * decay ** (i - j) for j in js)
                     if not same(float(state[e]), exp):
-                        tally.violation(f"functional:{name}", {"function": name, "history": list(hist[: i + 1]), "element": e}, f"{float(state[e])} vs closed form {exp}", exp, float(state[e]))
+                        tally.violation(f"functional:{name}" + ("" if odt == torch.float32 else f":{str(odt).replace('torch.', '')}-observations"),
+                                        {"function": name, "history": list(hist[: i + 1]), "element": e, "observation_dtype": str(odt)}, f"{float(state[e])} vs closed form {exp}", exp, float(state[e]))
             if sum(hist) >= 2:
-                tally.mark("nontrivial", (name, hist))
+                tally.mark("nontrivial", (name, str(odt), hist))
     tally.sample({"part": "trace functions", "T": T, "functions": list(fns)})
     return tally
 
